@@ -104,6 +104,25 @@ pub fn s_new_mul(a: f64, b: f64) -> TwoFloat {
     r
 }
 
+/// hi + lo == a * b exactly (Layer 2): integer product of the significands against the words decoded at the
+/// product's unit.  Proved for the real `new_mul` on its whole domain by `c02::new_mul_exact_full`.
+pub fn prod_exact(hi: f64, lo: f64, a: f64, b: f64) -> bool {
+    let (na, ma, ea) = fld(a); let (nb, mb, eb) = fld(b);
+    let p = (ma as i128) * (mb as i128);
+    let p = if na != nb { -p } else { p };
+    let anchor = ea + eb - 1075;
+    match (at_anchor(hi, anchor, 70), at_anchor(lo, anchor, 70)) { (Some(h), Some(l)) => h + l == p, _ => false }
+}
+/// contract stub of new_mul including the exactness clause (in the domain where it is claimed)
+#[cfg(kani)]
+pub fn s_new_mul_exact(a: f64, b: f64) -> TwoFloat {
+    assert!(pre_new_mul(a, b), "callee precondition: new_mul needs finite operands");
+    let r: TwoFloat = kani::any();
+    kani::assume(post_new_mul(a, b, &r));
+    kani::assume(!(mul_dom(r.hi) && r.hi != 0.0) || prod_exact(r.hi, r.lo, a, b));
+    r
+}
+
 // ------------------------------------------------- value-independent operator stubs
 // Used by the panic-freedom / control-flow obligations of the elementary functions: every
 // operator returns an arbitrary value that is valid or has a non-finite high word.  (The
